@@ -1,47 +1,89 @@
 import FlatModel.Driver.Wire
-import FlatModel.Model.Columns
-import FlatModel.Model.FlatStack
-import FlatModel.Model.Huffman
-import FlatModel.Model.Codec
-/-! The line-protocol engine: named handles over type-erased model instances. -/
+import FlatModel.Model.Coded
+import FlatModel.Model.Items
+/-! The line-protocol engine. Handles of one catalogue entry live in one *bank* (all of the same
+model type), so operations that relate two regions (`merge`, `clone_from`, `reserve_regions`,
+`pushitem`, `cmp`) are typed. -/
 namespace FC
 
-/-- a region instance with everything the driver needs, type erased -/
-structure AnyRegion where
+instance : Wire F64 := ⟨fun x => Val.nat x.bits, fun | .nat n => some ⟨n⟩ | _ => none⟩
+
+/-- what the driver needs beyond `Region` / `RegionAux`: input forms, read-item accessors, serde,
+stack operations. Every field has a generic default; entries whose Rust type has more structure
+override them (generated catalogue). -/
+structure Extra (R V I : Type) where
+  /-- `push` in a given input form; `none` = the entry has no such form -/
+  pushForm : String → R → V → Option (Option (R × I)) := fun _ _ _ => none
+  /-- accessor of the read item at an index: `op`, argument → reply; `none` = not applicable -/
+  itemOp : R → I → Bool → String → String → Option String := fun _ _ _ _ _ => none
+  /-- push the read item at `src`'s index (region-backed or borrowed-from-owned) -/
+  pushItem : R → R → I → Bool → Option (Option (R × I)) := fun _ _ _ _ => none
+  /-- `(==, cmp, partial_cmp)` of two read items -/
+  cmpItems : R → I → Bool → R → I → Bool → Option String := fun _ _ _ _ _ _ => none
+  /-- serialise + deserialise -/
+  serde : R → Option R := fun r => some r
+  ser : R → Option String := fun _ => none
+  /-- stack-only operations -/
+  xop : R → String → List String → Option (R × String) := fun _ _ _ => none
+  /-- ordinals are indices (FlatStack) -/
+  ordinalIsIndex : Bool := false
+  ordinalIndex : Nat → Option I := fun _ => none
+
+structure Bank where
   R : Type
   V : Type
   I : Type
   inst : Region R V I
+  aux : RegionAux R
   wv : Wire V
   wi : Wire I
-  state : R
-  /-- indices issued so far, addressed by ordinal on the wire -/
-  issued : Array I
+  ex : Extra R V I
+  /-- handle name ↦ (state, indices issued so far) -/
+  handles : List (String × (R × Array I))
 
-namespace AnyRegion
-def mk' (R : Type) {V I : Type} [inst : Region R V I] [wv : Wire V] [wi : Wire I] : AnyRegion :=
-  { R := R, V := V, I := I, inst := inst, wv := wv, wi := wi, state := inst.default, issued := #[] }
+namespace Bank
 
-def push (a : AnyRegion) (v : Val) : AnyRegion × String :=
-  match a.wv.ofVal v with
-  | none => (a, "bad-value")
-  | some x =>
-    match a.inst.push a.state x with
-    | none => (a, "refused")
-    | some (s', i) => ({ a with state := s', issued := a.issued.push i }, "idx " ++ (a.wi.toVal i).render)
+def mk' (R : Type) {V I : Type} [inst : Region R V I] [aux : RegionAux R] [wv : Wire V] [wi : Wire I]
+    (ex : Extra R V I := {}) : Bank :=
+  { R := R, V := V, I := I, inst := inst, aux := aux, wv := wv, wi := wi, ex := ex, handles := [] }
 
-def read (a : AnyRegion) (k : Nat) : String :=
-  match a.issued[k]? with
+def get (b : Bank) (h : String) : Option (b.R × Array b.I) := b.handles.lookup h
+def set (b : Bank) (h : String) (s : b.R × Array b.I) : Bank :=
+  { b with handles := (h, s) :: b.handles.filter (·.1 != h) }
+def drop (b : Bank) (h : String) : Bank := { b with handles := b.handles.filter (·.1 != h) }
+
+def indexAt (b : Bank) (s : b.R × Array b.I) (k : Nat) : Option b.I :=
+  if b.ex.ordinalIsIndex then b.ex.ordinalIndex k else s.2[k]?
+
+def readAt (b : Bank) (s : b.R × Array b.I) (k : Nat) : String :=
+  match b.indexAt s k with
   | none => "bad-ordinal"
   | some i =>
-    match a.inst.index a.state i with
+    match b.inst.index s.1 i with
     | none => "panic"
-    | some v => "item " ++ (a.wv.toVal v).render
+    | some v => "item " ++ (b.wv.toVal v).render
 
-def clear (a : AnyRegion) : AnyRegion := { a with state := a.inst.clear a.state, issued := #[] }
-end AnyRegion
+def count (b : Bank) (s : b.R × Array b.I) : Nat :=
+  if b.ex.ordinalIsIndex then
+    -- number of items of a stack: first ordinal that does not read
+    s.2.size
+  else s.2.size
 
-/-- an index container over usize, type erased -/
+def parseList (b : Bank) (v : Val) : Option (List b.V) :=
+  match v with
+  | .list xs => xs.mapM b.wv.ofVal
+  | _ => none
+
+end Bank
+
+def parseOrd (s : String) : Option Nat :=
+  match s.toList with
+  | '#' :: r => (String.ofList r).toNat?
+  | _ => none
+def parseRepr (s : String) : Option Bool :=
+  if s == "backed" then some false else if s == "borrowed" then some true else none
+
+/-- index containers over usize, type erased -/
 structure AnyIdx where
   C : Type
   inst : IdxCont C Nat
@@ -49,124 +91,243 @@ structure AnyIdx where
 
 namespace AnyIdx
 def mk' (C : Type) [inst : IdxCont C Nat] : AnyIdx := { C := C, inst := inst, state := inst.default }
+def fmtList (xs : List String) : String := "[" ++ ", ".intercalate xs ++ "]"
 def obs (a : AnyIdx) : String :=
-  let it := a.inst.iter a.state
+  let it := (a.inst.iter a.state).map toString
   let idx := (List.range (a.inst.len a.state + 1)).map fun i =>
     match a.inst.index a.state i with | none => "panic" | some x => toString x
-  s!"len {a.inst.len a.state} empty {a.inst.isEmpty a.state} iter {it} index {idx} used {a.inst.usedBytes a.state}"
+  let used := (a.inst.usedBytes a.state).map toString
+  s!"len {a.inst.len a.state} empty {a.inst.isEmpty a.state} iter {fmtList it} index {fmtList idx} used {fmtList used}"
 end AnyIdx
 
-inductive Handle where
-  | region (r : AnyRegion)
-  | idx (c : AnyIdx)
-  | huff (h : Huff.Container) (issued : Array (Nat × Nat))
-  | codec (c : Codec.Region) (issued : Array (Nat × Nat))
+def strideObs (s : Stride) : String :=
+  let it := s.iter.map toString
+  let idx := (List.range s.len).map fun i => match s.index i with | none => "panic" | some x => toString x
+  s!"len {s.len} empty {s.isEmpty} iter {AnyIdx.fmtList it} index {AnyIdx.fmtList idx}"
 
-abbrev Str := StringRegion (OwnedRegion UInt8)
-abbrev PairIdx := VecIdx (Nat × Nat) 16
-abbrev NatIdx := VecIdx Nat 8
+structure Env where
+  banks : List (String × Bank) := []
+  owner : List (String × String) := []
+  idxs : List (String × AnyIdx) := []
+  strides : List (String × Stride) := []
 
-instance (priority := low) eqvOfDecEq' {V : Type} [DecidableEq V] : HasEqv V := ⟨fun a b => decide (a = b)⟩
+namespace Env
+def bankOf (e : Env) (h : String) : Option (String × Bank) :=
+  match e.owner.lookup h with
+  | none => none
+  | some entry => (e.banks.lookup entry).map fun b => (entry, b)
+def putBank (e : Env) (entry : String) (b : Bank) : Env :=
+  { e with banks := (entry, b) :: e.banks.filter (·.1 != entry) }
+def setOwner (e : Env) (h entry : String) : Env :=
+  -- a handle that changes entry leaves its old bank
+  let e := match e.bankOf h with
+    | some (old, b) => if old != entry then e.putBank old (b.drop h) else e
+    | none => e
+  { e with owner := (h, entry) :: e.owner.filter (·.1 != h),
+           idxs := e.idxs.filter (·.1 != h), strides := e.strides.filter (·.1 != h) }
+end Env
 
-/-- the catalogue (to be generated from catalogue.toml) -/
-def newHandle : String → Option Handle
-  | "string(owned)" => some (.region (AnyRegion.mk' Str))
-  | "owned(u64)" => some (.region (AnyRegion.mk' (OwnedRegion Nat)))
-  | "mirror(u64)" => some (.region (AnyRegion.mk' (MirrorRegion Nat)))
-  | "slice(string(owned),vec)" => some (.region (AnyRegion.mk' (SliceRegion Str PairIdx)))
-  | "consec(string(owned),opt)" => some (.region (AnyRegion.mk' (ConsecPairs Str IndexOptimized)))
-  | "collapse(consec(string(owned),opt))" =>
-      some (.region (AnyRegion.mk' (CollapseSequence (ConsecPairs Str IndexOptimized) Nat)))
-  | "columns(collapse(consec(string(owned),opt)),opt)" =>
-      some (.region (AnyRegion.mk' (ColumnsRegion (CollapseSequence (ConsecPairs Str IndexOptimized) Nat) Nat IndexOptimized)))
-  | "slice(consec(string(owned),opt),opt)" =>
-      some (.region (AnyRegion.mk' (SliceRegion (ConsecPairs Str IndexOptimized) IndexOptimized)))
-  | "result(option(string(owned)),mirror(u64))" =>
-      some (.region (AnyRegion.mk' (ResultRegion (OptionRegion Str) (MirrorRegion Nat))))
-  | "idx:vec" => some (.idx (AnyIdx.mk' NatIdx))
-  | "idx:list" => some (.idx (AnyIdx.mk' IndexList))
-  | "idx:opt" => some (.idx (AnyIdx.mk' IndexOptimized))
+def newIdx : String → Option AnyIdx
+  | "idx:vec" => some (AnyIdx.mk' (VecIdx Nat 8))
+  | "idx:list" => some (AnyIdx.mk' IndexList)
+  | "idx:opt" => some (AnyIdx.mk' IndexOptimized)
   | _ => none
 
-abbrev Env := List (String × Handle)
+def fmtPairs (ps : List (Nat × Nat)) : String :=
+  "pairs [" ++ ",".intercalate (ps.map fun (u, c) => s!"({u},{c})") ++ "]"
 
-def Env.set (e : Env) (k : String) (h : Handle) : Env := (k, h) :: e.filter (·.1 != k)
-
-def step (env : Env) (line : String) : Env × String :=
+/-- `newBank` is the generated catalogue -/
+def step (newBank : String → Option Bank) (env : Env) (line : String) : Env × String :=
   match line.trimAscii.toString.splitOn " " with
-  | ["new", h, "huffman"] => (env.set h (.huff Huff.Container.default #[]), "ok")
-  | ["new", h, "codec"] => (env.set h (.codec Codec.Region.default #[]), "ok")
+  | ["reset"] => ({}, "ok")
+  | ["new", h, "stride"] =>
+    ({ env with strides := (h, Stride.empty) :: env.strides.filter (·.1 != h) }, "ok")
   | ["new", h, entry] =>
-    match newHandle entry with
-    | some x => (env.set h x, "ok")
-    | none => (env, "bad-entry")
-  | ["push", h, v] =>
-    match env.lookup h, Val.ofString v with
-    | some (.region r), some val => let (r', out) := r.push val; (env.set h (.region r'), out)
+    match (env.banks.lookup entry).orElse (fun _ => newBank entry) with
+    | some b =>
+      let env := env.setOwner h entry
+      (env.putBank entry (b.set h (b.inst.default, #[])), "ok")
+    | none =>
+      match newIdx entry with
+      | some c => ({ env with idxs := (h, c) :: env.idxs.filter (·.1 != h), owner := env.owner.filter (·.1 != h) }, "ok")
+      | none => (env, "bad-entry")
+  | ["push", h, form, v] =>
+    match env.bankOf h, Val.ofString v with
+    | some (entry, b), some val =>
+      match b.get h, b.wv.ofVal val with
+      | some s, some x =>
+        match b.ex.pushForm form s.1 x with
+        | none => (env, "bad-form")
+        | some none => (env, "refused")
+        | some (some (r', i)) => (env.putBank entry (b.set h (r', s.2.push i)), "idx " ++ (b.wi.toVal i).render)
+      | _, _ => (env, "bad-value")
     | _, _ => (env, "bad-op")
   | ["read", h, k] =>
-    match env.lookup h, k.toNat? with
-    | some (.region r), some k => (env, r.read k)
+    match env.bankOf h, parseOrd k with
+    | some (_, b), some k => match b.get h with | some s => (env, b.readAt s k) | none => (env, "bad-op")
     | _, _ => (env, "bad-op")
+  | ["readall", h] =>
+    match env.bankOf h with
+    | some (_, b) =>
+      match b.get h with
+      | some s =>
+        let n := s.2.size
+        (env, "all" ++ String.join ((List.range n).map fun k => " " ++ (b.readAt s k).replace " " "="))
+      | none => (env, "bad-op")
+    | none => (env, "bad-op")
+  | "item" :: h :: k :: rp :: op :: rest =>
+    match env.bankOf h, parseOrd k, parseRepr rp with
+    | some (_, b), some k, some borrowed =>
+      match b.get h with
+      | some s =>
+        match b.indexAt s k with
+        | none => (env, "bad-ordinal")
+        | some i =>
+          match b.ex.itemOp s.1 i borrowed op (rest.headD "") with
+          | some out => (env, out)
+          | none => (env, "na")
+      | none => (env, "bad-op")
+    | _, _, _ => (env, "bad-op")
   | ["clear", h] =>
-    match env.lookup h with
-    | some (.region r) => (env.set h (.region r.clear), "ok")
-    | some (.idx c) => (env.set h (.idx { c with state := c.inst.clear c.state }), "ok")
-    | _ => (env, "bad-op")
-  | ["cpush", h, v] =>
-    match env.lookup h, (Val.ofString v).bind (Wire.ofVal (α := List UInt8)) with
-    | some (.codec c iss), some item =>
-      match c.push item with
-      | none => (env, "refused")
-      | some (c', i) => (env.set h (.codec c' (iss.push i)), s!"idx ({i.1},{i.2})")
+    match env.bankOf h with
+    | some (entry, b) =>
+      match b.get h with
+      | some s => (env.putBank entry (b.set h (b.inst.clear s.1, #[])), "ok")
+      | none => (env, "bad-op")
+    | none =>
+      match env.idxs.lookup h with
+      | some c => ({ env with idxs := (h, { c with state := c.inst.clear c.state }) :: env.idxs.filter (·.1 != h) }, "ok")
+      | none => (env, "bad-op")
+  | ["reserve_items", h, _form, v] =>
+    match env.bankOf h, Val.ofString v with
+    | some (entry, b), some val =>
+      match b.get h, b.parseList val with
+      | some s, some xs => (env.putBank entry (b.set h (b.aux.reserveItems s.1 xs, s.2)), "ok")
+      | _, _ => (env, "bad-value")
     | _, _ => (env, "bad-op")
-  | ["cread", h, k] =>
-    match env.lookup h, k.toNat? with
-    | some (.codec c iss), some k =>
-      match iss[k]? with
-      | none => (env, "bad-ordinal")
-      | some i => match c.index i with
-        | none => (env, "panic")
-        | some xs => (env, "item " ++ (Val.bytes xs).render)
-    | _, _ => (env, "bad-op")
-  | "cmerge" :: h :: srcs =>
-    let cs := srcs.filterMap fun s => match env.lookup s with | some (.codec c _) => some c | _ => none
-    (env.set h (.codec (Codec.Region.merge cs) #[]), "ok")
-  | ["cclear", h] =>
-    match env.lookup h with
-    | some (.codec c _) => (env.set h (.codec c.clear #[]), "ok")
-    | _ => (env, "bad-op")
-  | ["hpush", h, v] =>
-    match env.lookup h, (Val.ofString v).bind (Wire.ofVal (α := List Nat)) with
-    | some (.huff c iss), some item =>
-      match c.push item with
-      | none => (env, "refused")
-      | some (c', i) => (env.set h (.huff c' (iss.push i)), s!"idx ({i.1},{i.2})")
-    | _, _ => (env, "bad-op")
-  | ["hread", h, k] =>
-    match env.lookup h, k.toNat? with
-    | some (.huff c iss), some k =>
-      match iss[k]? with
-      | none => (env, "bad-ordinal")
-      | some i => match c.index i with
-        | none => (env, "panic")
-        | some xs => (env, "item " ++ (Wire.toVal xs).render)
-    | _, _ => (env, "bad-op")
-  | "hmerge" :: h :: srcs =>
-    let cs := srcs.filterMap fun s => match env.lookup s with | some (.huff c _) => some c | _ => none
-    (env.set h (.huff (Huff.Container.merge cs) #[]), "ok")
-  | ["hclear", h] =>
-    match env.lookup h with
-    | some (.huff c _) => (env.set h (.huff c.clear #[]), "ok")
-    | _ => (env, "bad-op")
+  | "reserve_regions" :: h :: srcs =>
+    match env.bankOf h with
+    | some (entry, b) =>
+      match b.get h, srcs.mapM b.get with
+      | some s, some ss => (env.putBank entry (b.set h (b.aux.reserveRegions s.1 (ss.map (·.1)), s.2)), "ok")
+      | _, _ => (env, "bad-op")
+    | none => (env, "bad-op")
+  | "merge" :: h :: entry :: srcs =>
+    match (env.banks.lookup entry).orElse (fun _ => newBank entry) with
+    | some b =>
+      match srcs.mapM b.get with
+      | some ss =>
+        let env := env.setOwner h entry
+        (env.putBank entry (b.set h (b.aux.mergeRegions (ss.map (·.1)), #[])), "ok")
+      | none => (env, "bad-op")
+    | none => (env, "bad-entry")
+  | ["clone", hnew, h] =>
+    match env.bankOf h with
+    | some (entry, b) =>
+      match b.get h with
+      | some s =>
+        let env := env.setOwner hnew entry
+        (env.putBank entry (b.set hnew (b.aux.clone s.1, s.2)), "ok")
+      | none => (env, "bad-op")
+    | none =>
+      match env.idxs.lookup h with
+      | some c => ({ env with idxs := (hnew, c) :: env.idxs.filter (·.1 != hnew) }, "ok")
+      | none => (env, "bad-op")
+  | ["clone_from", hdst, hsrc] =>
+    match env.bankOf hdst with
+    | some (entry, b) =>
+      match b.get hdst, b.get hsrc with
+      | some d, some s => (env.putBank entry (b.set hdst (b.aux.cloneFrom d.1 s.1, s.2)), "ok")
+      | _, _ => (env, "bad-op")
+    | none => (env, "bad-op")
+  | ["ser", h] =>
+    match env.bankOf h with
+    | some (_, b) =>
+      match b.get h with
+      | some s => match b.ex.ser s.1 with | some t => (env, "tree " ++ t) | none => (env, "na")
+      | none => (env, "bad-op")
+    | none => (env, "bad-op")
+  | ["serde", hnew, h] =>
+    match env.bankOf h with
+    | some (entry, b) =>
+      match b.get h with
+      | some s =>
+        match b.ex.serde s.1 with
+        | some r' =>
+          let env := env.setOwner hnew entry
+          (env.putBank entry (b.set hnew (r', s.2)), "ok")
+        | none => (env, "na")
+      | none => (env, "bad-op")
+    | none =>
+      match env.idxs.lookup h with
+      | some c => ({ env with idxs := (hnew, c) :: env.idxs.filter (·.1 != hnew) }, "ok")
+      | none => (env, "bad-op")
+  | ["heap", h] =>
+    match env.bankOf h with
+    | some (_, b) => match b.get h with | some s => (env, fmtPairs (b.aux.heap s.1)) | none => (env, "bad-op")
+    | none => (env, "bad-op")
+  | ["allocs"] => (env, "allocs -")
+  | ["pushitem", hdst, hsrc, k, rp] =>
+    match env.bankOf hdst, parseOrd k, parseRepr rp with
+    | some (entry, b), some k, some borrowed =>
+      match b.get hdst, b.get hsrc with
+      | some d, some s =>
+        match s.2[k]? with
+        | none => (env, "bad-ordinal")
+        | some i =>
+          match b.ex.pushItem d.1 s.1 i borrowed with
+          | none => (env, "na")
+          | some none => (env, "refused")
+          | some (some (r', j)) => (env.putBank entry (b.set hdst (r', d.2.push j)), "idx " ++ (b.wi.toVal j).render)
+      | _, _ => (env, "bad-op")
+    | _, _, _ => (env, "bad-op")
+  | ["cmp", h1, k1, r1, h2, k2, r2] =>
+    match env.bankOf h1, parseOrd k1, parseRepr r1, parseOrd k2, parseRepr r2 with
+    | some (_, b), some k1, some b1, some k2, some b2 =>
+      match b.get h1, b.get h2 with
+      | some s1, some s2 =>
+        match s1.2[k1]?, s2.2[k2]? with
+        | some i, some j =>
+          match b.ex.cmpItems s1.1 i b1 s2.1 j b2 with
+          | some out => (env, out)
+          | none => (env, "na")
+        | _, _ => (env, "bad-ordinal")
+      | _, _ => (env, "bad-op")
+    | _, _, _, _, _ => (env, "bad-op")
+  | "x" :: h :: op :: args =>
+    match env.bankOf h with
+    | some (entry, b) =>
+      match b.get h with
+      | some s =>
+        match b.ex.xop s.1 op args with
+        | some (r', out) => (env.putBank entry (b.set h (r', s.2)), out)
+        | none => (env, "bad-op")
+      | none => (env, "bad-op")
+    | none => (env, "bad-op")
   | ["ipush", h, x] =>
-    match env.lookup h, x.toNat? with
-    | some (.idx c), some x => (env.set h (.idx { c with state := c.inst.push c.state x }), "ok")
+    match env.idxs.lookup h, x.toNat? with
+    | some c, some x =>
+      ({ env with idxs := (h, { c with state := c.inst.push c.state x }) :: env.idxs.filter (·.1 != h) }, "ok")
+    | _, _ => (env, "bad-op")
+  | ["iextend", h, xs] =>
+    match env.idxs.lookup h, (Val.ofString xs).bind (Wire.ofVal (α := List Nat)) with
+    | some c, some xs =>
+      ({ env with idxs := (h, { c with state := xs.foldl c.inst.push c.state }) :: env.idxs.filter (·.1 != h) }, "ok")
     | _, _ => (env, "bad-op")
   | ["iobs", h] =>
-    match env.lookup h with
-    | some (.idx c) => (env, c.obs)
-    | _ => (env, "bad-op")
+    match env.idxs.lookup h with
+    | some c => (env, c.obs)
+    | none => (env, "bad-op")
+  | ["spush", h, x] =>
+    match env.strides.lookup h, x.toNat? with
+    | some s, some x =>
+      let (s', ok) := s.push x
+      ({ env with strides := (h, s') :: env.strides.filter (·.1 != h) }, if ok then "accepted" else "rejected")
+    | _, _ => (env, "bad-op")
+  | ["sobs", h] =>
+    match env.strides.lookup h with
+    | some s => (env, strideObs s)
+    | none => (env, "bad-op")
   | _ => (env, "bad-op")
 
 end FC
